@@ -145,6 +145,21 @@ def scen_adc_short(env, cfg):
     env.check("otype outside {'v','n'} raises ValueError", not ok)
 
 
+def scen_adc_defined(env, cfg):
+    """ADC of any record (constant ones included) is finite: no division by zero on the way."""
+    D, T = env.lib.devices, env.lib.typing
+    m = cfg['m']
+    xs = env.reals('x', m, -5, 5)
+    arg = T.electrical_signal(list(xs))
+    mk = env.mark()
+    try:
+        y = D.ADC(arg, n=cfg['bits'], otype=cfg['otype'])
+        outs = [y.signal]
+    except env.NonFinite:
+        outs = None
+    env.check_defined('ADC output is finite for every record, constant records included (no division by a zero full-scale range)', outs, since=mk)
+
+
 def configs(tier):
     q = tier == 'quick'
     out = []
@@ -172,4 +187,6 @@ def configs(tier):
     for nb, otype, m, form in ((2, 'n', 2, 'es'), (3, 'v', 3, 'es'), (4, 'n', 2, 'ndarray')) if q else \
             ((1, 'n', 2, 'es'), (2, 'n', 2, 'es'), (3, 'v', 3, 'es'), (4, 'n', 2, 'ndarray'), (4, 'v', 3, 'es'), (3, 'n', 4, 'es')):
         out.append((f'adc-short-{nb}bit-{otype}-m{m}-{form}', scen_adc_short, dict(m=m, bits=nb, otype=otype, form=form), {}))
+    for m in (2, 3):
+        out.append((f'adc-defined-m{m}', scen_adc_defined, dict(m=m, bits=3, otype='v'), {}))
     return out
